@@ -45,14 +45,20 @@ func c14Rules(p *core.Prog, r *core.Run) {
 			continue
 		}
 		has255, has63 := false, false
-		for _, b := range f.Blocks {
-			if iff, ok := b.Instrs[len(b.Instrs)-1].(*ssa.If); ok {
-				ft := p.FactOf(core.Guard{Cond: iff.Cond, Pol: true, If: iff})
-				if ft.R != nil && ft.R.Name == "255" {
-					has255 = true
-				}
-				if ft.R != nil && ft.R.Name == "63" {
-					has63 = true
+		for _, l := range core.Closures(f) {
+			for _, b := range l.Blocks {
+				for _, in := range b.Instrs {
+					// a comparison with the limit, as a branch condition or as a returned value
+					if bo, ok := in.(*ssa.BinOp); ok {
+						if c, ok := bo.Y.(*ssa.Const); ok && c.Value != nil {
+							switch c.Value.ExactString() {
+							case "255":
+								has255 = true
+							case "63":
+								has63 = true
+							}
+						}
+					}
 				}
 			}
 		}
@@ -390,6 +396,36 @@ func c14ValidName(p *core.Prog, r *core.Run, vn *ssa.Function) {
 				if ret, isRet := b.Succs[0].Instrs[len(b.Succs[0].Instrs)-1].(*ssa.Return); isRet && p.X(ret.Results[0]).Name == "false" {
 					okL = true
 				}
+			}
+		}
+	}
+	// the same as a library search: !slices.ContainsFunc(strings.Split(name, "."), func(l) { return len(l) > 63 })
+	if !okL {
+		for _, s := range callSites(p, []*ssa.Function{vn}, `slices\.ContainsFunc`) {
+			x := s.X
+			if len(x.Args) != 2 || !(x.Args[0].Op == "call" && x.Args[0].Name == "strings.Split" && x.Args[0].Args[1].Name == `"."` && x.Args[0].Args[0].Op == "param") || x.Args[1].Fn == nil {
+				continue
+			}
+			pred := len(core.Returns(x.Args[1].Fn)) > 0
+			for _, ret := range core.Returns(x.Args[1].Fn) {
+				e := p.X(ret.Results[0])
+				if !(e.Op == "bin" && e.Name == ">" && e.Args[1].Name == "63" && e.Args[0].Op == "call" && e.Args[0].Name == "len" && e.Args[0].Args[0].Op == "param") {
+					pred = false
+				}
+			}
+			// validName is false whenever the search finds one
+			neg := true
+			for _, ret := range core.Returns(vn) {
+				e := p.X(ret.Results[0])
+				if e.Op == "const" && e.Name == "false" {
+					continue
+				}
+				if !(e.Op == "un" && e.Name == "!" && e.Args[0].Val == s.Instr.(ssa.Value)) && !(e.Op == "const" && e.Name == "true" && core.HasFact(p.Facts(ret.Block()), "false", `slices\.ContainsFunc\(.*`, "")) {
+					neg = false
+				}
+			}
+			if pred && neg {
+				okL = true
 			}
 		}
 	}
